@@ -3,7 +3,7 @@ package rules
 func init() {
 	register(&Property{
 		ID:      "C08",
-		Explain: "FOLD of the control-frame machinery. ControlWriter: Write is evaluated over (bytes already written) x len(p) cells - a write that would pass 125 bytes fails with ErrControlOverflow before reaching the inner writer, and the counter compared with the limit must advance by what the inner writer accepted and be cleared by Flush (a guard on a field that is never stored is dead); both constructors give limit <= 125 and <= the inner buffer for every buffer length. Handlers: HandlePing / HandlePong / HandleClose and closeWithProtocolError are evaluated over Length cells x side x ciphering x every I/O outcome; the reply tables (pong with the same payload, nothing for a pong, close echoing the code / empty close / protocol-error close, ClosedError or protocol error to the caller, masked iff client with the result of the functional mask helpers actually used, source reads bounded by the announced length) are compared with the reference. Functional-update results (MaskFrame*, UnmaskFrame*, State.Set/Clear, SetBits...) must be used everywhere in the module. The validity of the close code is delegated to CheckCloseFrameData, whose exact table (C03.closecode-table) is part of this check. The reader installed for an intermediate control frame is the unmasking one (NextFrame install / drain groups). The pong buffer is Length plus the header of the reply (masked iff client); a payload copy that fails, or ends early with io.EOF, is returned without sending a pong. CipherReader (C02.stream-wrappers) and the helpers that route control frames to the handlers are part of this check: every control message collected by ReadMessage has its own payload buffer. The control frames the handlers see passed the CheckHeader table (run here); the control writer sits on Writer.Write / Flush, whose tables run here too (no frame before Flush, one final frame then).",
+		Explain: "FOLD of the control-frame machinery. ControlWriter: Write is evaluated over (bytes already written) x len(p) cells - a write that would pass 125 bytes fails with ErrControlOverflow before reaching the inner writer, and the counter compared with the limit must advance by what the inner writer accepted and be cleared by Flush (a guard on a field that is never stored is dead); both constructors give limit <= 125 and <= the inner buffer for every buffer length. Handlers: HandlePing / HandlePong / HandleClose and closeWithProtocolError are evaluated over Length cells x side x ciphering x every I/O outcome; the reply tables (pong with the same payload, nothing for a pong, close echoing the code / empty close / protocol-error close, ClosedError or protocol error to the caller, masked iff client with the result of the functional mask helpers actually used, source reads bounded by the announced length) are compared with the reference. Functional-update results (MaskFrame*, UnmaskFrame*, State.Set/Clear, SetBits...) must be used everywhere in the module. The validity of the close code is delegated to CheckCloseFrameData, whose exact table (C03.closecode-table) is part of this check. The reader installed for an intermediate control frame is the unmasking one (NextFrame install / drain groups). The pong buffer is Length plus the header of the reply (masked iff client); a payload copy that fails, or ends early with io.EOF, is returned without sending a pong. CipherReader (C02.stream-wrappers) and the helpers that route control frames to the handlers are part of this check: every control message collected by ReadMessage has its own payload buffer. The control frames the handlers see passed the CheckHeader table (run here); the control writer sits on Writer.Write / Flush, whose tables run here too (no frame before Flush, one final frame then). returned-closures-read-only runs here: the handler function ControlFrameHandler hands out serves every control frame of a connection and must not remember the reader of an earlier one.",
 		Trusted: []string{"go/ssa + go/types", "the checker's abstract evaluator", "ws.Cipher (C02), ws.WriteHeader layout (C01), Writer tables (C06)"},
 		Run: func(c *Ctx) {
 			controlWriterRules(c, "C08")
